@@ -158,6 +158,7 @@ Definition mdata_pb (d : mdata) : option pb_mdata :=
   | MHist l t => option_map (PHist (map hpoint_pb l)) (temp_pb t)
   | MExp l t => option_map (PExp (map epoint_pb l)) (temp_pb t)
   | MSummary l => Some (PSummary (map qpoint_pb l))
+  | MNone => None                                  (* errUnknownAggregation: dropped *)
   end.
 Definition metric_pb (m : metric) : option pb_metric :=
   option_map (mkPMetric (m_name m) (m_desc m) (m_unit m)) (mdata_pb (m_data m)).
@@ -207,4 +208,6 @@ Fixpoint all_some {A} (l : list (option A)) : option (list A) :=
   | Some a :: r => option_map (cons a) (all_some r)
   | None :: _ => None
   end.
-Definition zipkin_batch (l : list zspan) : option (list zobs) := all_some (map zipkin_span l).
+(** An empty batch sends no request at all. *)
+Definition zipkin_batch (l : list zspan) : option (list zobs) :=
+  match l with [] => None | _ => all_some (map zipkin_span l) end.
